@@ -60,8 +60,9 @@ def run(out: Outcome, drv):
     for fn in gen.GENERATORS:
         rng = gen.rng_for(out.seed, "C15", fn)
         reqs, meta = [], []
-        for _ in range(n):
-            case = gen.GENERATORS[fn](rng, 10 if out.tier == "quick" else 20)
+        pool = [it[0] for it in fx.corpus_items("C15") if it[0]["fn"] == fn]
+        for k in range(n + len(pool)):
+            case = pool[k] if k < len(pool) else gen.GENERATORS[fn](rng, 10 if out.tier == "quick" else 20)
             if not std_margin_ok(case):
                 continue
             variants = []
